@@ -505,6 +505,100 @@ class C05(Check):
             B.ask("val eq 0 0", final)
 
     # ------------------------------------------------------------------ run
+    def _pause_continue_oracle(self, ctx, failures, n=None):
+        """a run paused on the hydraulic grid and continued with the same simulator (duration raised, no reset): a tank-level
+        threshold crossed in the FIRST step of the continued leg is still met by a partial step and the commanded link is closed in
+        that very row.  The uninterrupted run of the same model tells where the crossing lies (only crossings between 15 % and 65 % of
+        a step are used, so that a whole-step overshoot is unmistakable); the tolerance is a quarter of the level change of a whole
+        step (the real partial step lands within about one second of inflow)."""
+        import warnings as _w
+        wntr = vlib.import_wntr()
+        from wntr.network.controls import Control, ControlAction, ValueCondition
+        from wntr.network.base import LinkStatus
+        rng = ctx.rng
+        n = n or (24 if ctx.quick else 150)
+
+        def build(par):
+            wn = wntr.network.WaterNetworkModel()
+            wn.add_reservoir("R", base_head=par["head"])
+            wn.add_junction("J", base_demand=0.0, elevation=0.0)
+            wn.add_junction("A", base_demand=0.002, elevation=0.0)
+            wn.add_junction("B", base_demand=0.002, elevation=0.0)
+            wn.add_tank("T", elevation=10.0, init_level=par["init"], min_level=0.0, max_level=20.0, diameter=par["diam"])
+            wn.add_pipe("PR", "R", "J", length=500, diameter=0.3, roughness=100)
+            wn.add_pipe("PT", "J", "T", length=500, diameter=0.2, roughness=100)
+            wn.add_pipe("PA", "J", "A", length=100, diameter=0.2, roughness=100)
+            wn.add_pipe("PA2", "R", "A", length=2000, diameter=0.2, roughness=100)
+            wn.add_pipe("PB", "J", "B", length=100, diameter=0.2, roughness=100)
+            wn.add_pipe("PB2", "R", "B", length=2000, diameter=0.2, roughness=100)
+            wn.options.time.hydraulic_timestep = par["hyd"]
+            wn.options.time.report_timestep = "ALL"
+            wn.options.time.duration = par["hyd"] * par["steps"]
+            for lname, thr in par["thr"].items():
+                c = Control(ValueCondition(wn.get_node("T"), "level", ">", thr), ControlAction(wn.get_link(lname), "status", LinkStatus.Closed))
+                wn.add_control("close_" + lname, c)
+            return wn
+
+        def table(results):
+            lev = results.node["pressure"]["T"]
+            return [(int(t), float(lev[t]), float(results.node["demand"]["T"][t]), {l: int(results.link["status"][l][t]) for l in ("PA", "PB")}) for t in lev.index]
+
+        for k in range(n):
+            init = round(rng.uniform(1.5, 2.5), 3)
+            t1 = round(init + rng.uniform(0.25, 0.9), 3)
+            par = {"head": rng.choice([50.0, 60.0, 70.0]), "diam": rng.choice([4.0, 5.0, 6.0, 8.0]), "init": init, "hyd": rng.choice([60, 120, 300]), "steps": 14,
+                   "thr": {"PA": t1, "PB": round(t1 + rng.uniform(0.4, 1.2), 3)}}
+            area = 3.141592653589793 / 4 * par["diam"] ** 2
+            with _w.catch_warnings():
+                _w.simplefilter("ignore")
+                try:
+                    ref = table(wntr.sim.WNTRSimulator(build(par)).run_sim())
+                except Exception:
+                    ctx.count("pause-continue:reference-run-failed")
+                    continue
+            for lname, thr in par["thr"].items():
+                hit = [r for r in ref if r[1] >= thr]
+                if not hit or hit[0][0] == 0:
+                    ctx.count("pause-continue:threshold-not-reached")
+                    continue
+                t0 = hit[0][0]
+                tp = (t0 - 1) // par["hyd"] * par["hyd"]
+                frac = (t0 - tp) / float(par["hyd"])
+                if tp < par["hyd"] or not (0.15 <= frac <= 0.65) or any(r[0] == t0 for r in ref if r[0] % par["hyd"] == 0):
+                    ctx.count("pause-continue:crossing-not-mid-step")
+                    continue
+                rate = abs(next(r[2] for r in ref if r[0] == tp)) / area
+                tol = 0.25 * rate * par["hyd"] + 1e-6
+                wn = build(par)
+                wn.options.time.duration = tp
+                with _w.catch_warnings():
+                    _w.simplefilter("ignore")
+                    try:
+                        sim = wntr.sim.WNTRSimulator(wn)
+                        sim.run_sim()
+                        wn.options.time.duration = par["hyd"] * par["steps"]
+                        leg2 = table(sim.run_sim())
+                    except Exception:
+                        ctx.count("pause-continue:continued-run-failed")   # judged by C10 / C16, not here
+                        continue
+                ctx.case(("pause-continue", k, lname), True)
+                ctx.count("pause-continue:judged")
+                hit2 = [r for r in leg2 if r[1] >= thr]
+                rep = {"pause_continue": par, "control": "IF T level > %s THEN %s CLOSED" % (thr, lname), "paused_at": tp, "uninterrupted_crossing_at": t0,
+                       "continued_rows": [(r[0], round(r[1], 6), r[3][lname]) for r in leg2[:8]]}
+                if not hit2:
+                    continue
+                over = hit2[0][1] - thr
+                if over > tol:
+                    failures.append(Failure("threshold-overshot-after-pause",
+                                            "tank-level control `%s` (hydraulic step %d): run paused at %d and continued; the threshold is first met at t=%d with level %.5f, "
+                                            "%.5f beyond it (a partial step lands within %.5f; the uninterrupted run meets it at t=%d)"
+                                            % (rep["control"], par["hyd"], tp, hit2[0][0], hit2[0][1], over, tol, t0), rep))
+                elif hit2[0][1] > thr and hit2[0][3][lname] != 0:
+                    failures.append(Failure("threshold-not-effective-after-pause",
+                                            "tank-level control `%s`: run paused at %d and continued; level %.5f > threshold at t=%d but the link is reported open"
+                                            % (rep["control"], tp, hit2[0][1], hit2[0][0]), rep))
+
     def correspondence(self, ctx):
         failures, broken = [], []
         B = K.Batch()
@@ -561,6 +655,7 @@ class C05(Check):
                 c = K.cond_controls(spec)[0]
                 ctx.sample({"network": label, **K.minimal_note(spec), "control": "IF %s %s %s %s THEN %s %s PRIORITY %d" % (c["src"], c["attr"], c["rel"], c["thr"], c["link"], c["value"], c["prio"]),
                             "reported": [(r["t"], r["links"][c["link"]][0]) for r in tr.rows[:8]]})
+        self._pause_continue_oracle(ctx, failures)
         B.finish()
         ctx.cov["driver_requests"] = len(B.lines)
         ctx.cov["curve_lookup_mode"] = K.probe_mode()
